@@ -367,9 +367,21 @@ Qed.
 
 Ltac nd := repeat constructor; simpl; intuition (try discriminate; try lia).
 
+Fixpoint nodup_natb (l : list nat) : bool :=
+  match l with [] => true | x :: t => negb (existsb (Nat.eqb x) t) && nodup_natb t end.
+
+Lemma nodup_natb_spec l : nodup_natb l = true -> NoDup l.
+Proof.
+  induction l as [|x t IH]; simpl; intros H; [constructor|].
+  apply andb_true_iff in H. destruct H as [H1 H2]. constructor; [|auto].
+  intros Hi. apply negb_true_iff in H1.
+  assert (existsb (Nat.eqb x) t = true) by (apply existsb_exists; exists x; split; [assumption | apply Nat.eqb_refl]).
+  congruence.
+Qed.
+
 Lemma common_attr_nodup seen uniq i a : NoDup (map key (common_attr seen uniq i a)).
 Proof.
-  unfold common_attr. destruct (rule_of (la_kind a)) as [ru|]; [|nd].
+  unfold common_attr. destruct (rule_of (la_kind a)) as [ru|]; [|apply nodup_natb_spec; reflexivity].
   destruct (ru_requires_value ru && is_nil (la_value a));
   destruct (negb (ru_allows_multiple ru) && Nat.ltb 1 (count_kind (la_kind a) seen));
   destruct (existsb (fun k => Nat.ltb 0 (count_kind k seen)) (ru_mutex ru));
@@ -377,7 +389,7 @@ Proof.
   destruct (la_alias a), (ru_props ru);
   destruct (la_kind a); unfold verb_diags;
   try (destruct (smem (la_value a) supported_verbs); [|destruct (smem (la_value a) other_http_verbs)]);
-  simpl; nd.
+  apply nodup_natb_spec; reflexivity.
 Qed.
 
 Lemma common_attr_meta seen uniq i a : allq (fun d => part d = 0 /\ aidx d = i) (common_attr seen uniq i a).
